@@ -1,10 +1,14 @@
 package checks
 
 import (
+	"fmt"
+
 	"verif/internal/back"
 	"verif/internal/gen"
+	"verif/internal/model"
 	"verif/internal/ref"
 	"verif/internal/run"
+	"verif/internal/zoo"
 )
 
 func init() {
@@ -72,5 +76,43 @@ func runC08(c *run.Ctx) {
 			continue
 		}
 		c.Violation("c08", ec.replay(kind, ec.DC.OpName, map[string]interface{}{"diff": diff, "expected": exp.Describe(), "observed": out.Describe()}))
+	}
+	// binding by the @go directive and by name only (no RegisterType), on cold roots, suffix-related Go type names,
+	// heterogeneous lists whose first element varies, one or several documents per root
+	m := c.N(600, 20000)
+	for i := 0; i < m && !c.TooMany(); i++ {
+		r := c.Rand(1000000 + i)
+		root, ms, g, err := zoo.NewPetsRoot(i)
+		if err != nil {
+			c.Violation("c08-schema-rejected", map[string]interface{}{"error": err.Error()})
+			return
+		}
+		for k := 0; k < 1+i%3; k++ {
+			dc := gen.Doc(r, ms, gen.DocOpts{Frags: true, Aliases: true, Abstract: true, Depth: 2 + r.Intn(3), MaxOps: 1})
+			text := dc.Doc.Print(model.LayoutN(i + k))
+			exp := ref.Execute(ms, dc.Doc, dc.OpName, dc.Vars, g, nil, ref.Flags{})
+			out := &Outcome{}
+			out.Panic, out.Stack = run.Protect(func() { out.Resp = root.ResolveString(text, dc.OpName, copyVars(dc.Vars)) })
+			if out.Resp != nil {
+				d := out.Resp["data"]
+				out.HasData = d != nil
+				out.Data = ref.Canon(d)
+				if es, isL := out.Resp["errors"].([]interface{}); isL {
+					for _, e := range es {
+						em, _ := e.(map[string]interface{})
+						p, _ := em["path"].([]interface{})
+						out.ErrPaths = append(out.ErrPaths, p)
+						out.Msgs = append(out.Msgs, fmt.Sprint(em["message"]))
+					}
+				}
+			}
+			c.Eval("pets|"+text+fmt.Sprint(i%4, k), true)
+			c.Count("static_binding_documents", 1)
+			if diff := Compare(exp, out, CompareOpts{StripFragSeg: true}); diff != "" {
+				c.Violation("c08-static-binding", map[string]interface{}{"sdl": ms.SDL(model.SDLOpts{}), "data_variant": i % 4, "document_index_on_this_root": k, "document": text,
+					"diff": diff, "expected": exp.Describe(), "observed": out.Describe()})
+				break
+			}
+		}
 	}
 }
